@@ -342,7 +342,9 @@ pub fn handle_with(mut rq: Request, act: &Action, peer_expect: &str, partial: Op
     ReqObs { text: render(&got, end) }
 }
 
-/// Replaces every `Date: <valid current IMF-fixdate>` header line in a byte stream.
+/// Replaces every `Date: <valid current IMF-fixdate>` header line in a byte stream. Current = between the
+/// moment the case was taken up and now (2 s of slack on both sides): a long conversation (hundreds of
+/// segments with pauses) may have its first answer written seconds before the stream is looked at.
 pub fn canon_dates_anywhere(w: &[u8]) -> Vec<u8> {
     let pat = b"\r\nDate: ";
     let mut out = Vec::with_capacity(w.len());
@@ -353,7 +355,8 @@ pub fn canon_dates_anywhere(w: &[u8]) -> Vec<u8> {
             let v = &w[i + pat.len()..i + pat.len() + 29];
             if &w[i + pat.len() + 29..i + pat.len() + 31] == b"\r\n" {
                 if let Some(t) = parse_imf_fixdate(v) {
-                    if (t - now).abs() <= 2 {
+                    let start = CASE_START_SECS.load(std::sync::atomic::Ordering::SeqCst);
+                    if t >= start.min(now) - 2 && t <= now + 2 {
                         out.extend_from_slice(pat);
                         out.extend_from_slice(CANON_DATE);
                         i += pat.len() + 29;
